@@ -53,6 +53,11 @@ def worker(k):
         rec = dict(patch=patch, results={})
         r = sh("git -C %s/repo apply %s" % (root, patch))
         if r.returncode != 0:
+            r = sh("git -C %s/repo apply -3 %s" % (root, patch))     # the tree has moved on since the patch was written
+            sh("git -C %s/repo reset -q" % root)
+        if r.returncode != 0 or "with conflicts" in r.stderr:
+            sh("git -C %s/repo checkout -- ." % root)
+        if r.returncode != 0 or "with conflicts" in r.stderr:
             rec["error"] = "patch does not apply: " + r.stderr[:300]
         else:
             for p in props:
